@@ -230,6 +230,32 @@ pub fn arith(m: &mut M, r: &mut Rng, n: u64, which: &str) {
                     }
                 }
             }
+            {
+                // scaling into the lowest normal binades: the low word becomes subnormal and is rounded there
+                let eh = r.range(-1000, -960) as i32;
+                let hi = r.f64_in(eh, eh);
+                let lo = lo_candidate(r, hi);
+                if m.load(3, hi, lo) || m.load(3, hi, 0.0) {
+                    let target = r.range(-1022, -1010) as i32;
+                    let k = (eh - target).max(1);
+                    let (up, down) = (pow2(k), pow2(-k));
+                    let sg = if r.coin() { 1.0 } else { -1.0 };
+                    for sp in SP_TT {
+                        if r.below(3) == 0 {
+                            continue;
+                        }
+                        m.call("arith", "div", sp, Some(4), &[A::R(3), A::F(sg * up)]);
+                        m.call("arith", "mul", sp, Some(4), &[A::R(3), A::F(sg * down)]);
+                    }
+                    m.call("arith", "mul", *r.pick(&SP_FT), Some(4), &[A::F(sg * down), A::R(3)]);
+                    if m.load(5, sg * up, 0.0) {
+                        m.call("arith", "div", *r.pick(&SP_TT), Some(4), &[A::R(3), A::R(5)]);
+                    }
+                    if m.load(5, sg * down, 0.0) {
+                        m.call("arith", "mul", *r.pick(&SP_TT), Some(4), &[A::R(3), A::R(5)]);
+                    }
+                }
+            }
             let z = r.f64_in(-1022, 1023);
             m.call("arith", "from_f64", *r.pick(&["From", "from_f64", "Into", "NumCast"]), Some(2), &[A::F(z)]);
         }
